@@ -305,6 +305,9 @@ def main(rep, tier, only):
         ok = len(rets) == 1 and rets[0] == want[k]
         (rep.ok if ok else rep.fail)("ACC", key, F.primary_site(fn), F.describe(fn)[:160],
                                      **({"how": rets[0]} if ok else {"why": "%s returns %s, the box's representation contract says %s" % (key, rets, want[k])}))
+    if only in (None, "BOXARITH", "CORNERS"):
+        from checks import c13_arith
+        c13_arith.rules(rep, db, only)
     rep.explanation = ("Each per-coordinate expression is evaluated by abstract interpretation under every weak order of the scalars it "
                        "reads (finite domain; comparisons, std::min and std::max are interpreted exactly) and compared with the half-open "
                        "point-set specification; index coverage makes the result hold for every coordinate of every N analysed. No "
